@@ -59,6 +59,13 @@ package treebidimap
 //@   focus post:others : pre:*, lemma:*
 //@   focus post:1.33 : pre:*, lemma:*
 //@   ensures [C01 C10 C17] Inv(m) && Config(m) && Fwd(m, key) && VC(m, FwdVal(m, key), value) == 0 && Bwd(m, value) && KC(m, BwdVal(m, value), key) == 0
+//@   ensures [C01 C10] equiv: forall k like key :: KC(m, k, key) == 0 ==> Fwd(m, k) && FwdVal(m, k) == value
+//@   focus post:equiv : Tree.Put#1:map, Tree.Put#1:1, Tree.Put#2:owners, pre:*
+//@   ensures owners-f: forall x like m.forwardMap.Root :: fresh(x) ==> x.tr == m.forwardMap || x.tr == nil
+//@   ensures owners-i: forall x like m.inverseMap.Root :: fresh(x) ==> x.tr == m.inverseMap || x.tr == nil
+//@   ensures owners-f-old: forall x like m.forwardMap.Root :: !fresh(x) ==> x.tr == old(x.tr) || (old(x.tr) == m.forwardMap && x.tr == nil)
+//@   ensures owners-i-old: forall x like m.inverseMap.Root :: !fresh(x) ==> x.tr == old(x.tr) || (old(x.tr) == m.inverseMap && x.tr == nil)
+//@   focus post:owners-* : pre:*, Tree.Remove#*:owners, Tree.Put#*:owners
 //@   ensures [C01 C10] others: forall k like key :: KC(m, k, key) != 0 ==> (Fwd(m, k) <==> old(Fwd(m, k)) && VC(m, old(FwdVal(m, k)), value) != 0) && (Fwd(m, k) ==> FwdVal(m, k) == old(FwdVal(m, k)))
 
 //@ func Map.Get
@@ -230,4 +237,50 @@ package treebidimap
 //@   loop 1:
 //@     invariant ItInv(iterator) && iterator.iterator.tree == m.forwardMap && fresh(iterator) && fresh(iterator.iterator)
 //@     invariant forall j :: 0 <= j && j <= Cur(iterator) && j < m.forwardMap.size ==> !f(redblacktree.KeyAt(m.forwardMap, j), redblacktree.ValAt(m.forwardMap, j))
+//@     decreases m.forwardMap.size - Cur(iterator)
+
+// ---- Select / Map (C14) ----
+
+//@ pred FK(m, j) := redblacktree.KeyAt(m.forwardMap, j)
+//@ pred FV(m, j) := redblacktree.ValAt(m.forwardMap, j)
+//@ pred FRank(m, k) := m.forwardMap.rank[k]
+
+//@ -- Select: exactly the matching pairs (no eviction can happen: the pairs of a bidirectional map have pairwise
+//@ -- inequivalent keys and pairwise inequivalent values), values kept, result fresh and one-to-one
+//@ func Map.Select
+//@   requires Inv(m) && f != nil
+//@   modifies nothing
+//@   assert entry: forall a like argof(m.forwardMap.Comparator, 0), b like argof(m.forwardMap.Comparator, 0) :: Fwd(m, a) && Fwd(m, b) && KC(m, a, b) != 0 ==> VC(m, FwdVal(m, a), FwdVal(m, b)) != 0
+//@   assert backedge 1: forall k like argof(m.forwardMap.Comparator, 0) :: KC(m, k, FK(m, Cur(iterator))) == 0 ==> FRank(m, k) == Cur(iterator)
+//@   assert backedge 1: forall k like argof(m.forwardMap.Comparator, 0) :: KC(m, k, FK(m, Cur(iterator))) == 0 ==> Fwd(m, k)
+//@   assert backedge 1: forall k like argof(m.forwardMap.Comparator, 0) :: Fwd(m, k) && KC(m, k, FK(m, Cur(iterator))) != 0 ==> FRank(m, k) != Cur(iterator)
+//@   assert backedge 1: forall k like argof(m.forwardMap.Comparator, 0) :: Fwd(m, k) && KC(m, k, FK(m, Cur(iterator))) != 0 ==> VC(m, FwdVal(m, k), FV(m, Cur(iterator))) != 0
+//@   ensures [C14 C16 C17 C18] fresh(result) && Inv(result) && result.forwardMap.Comparator == m.forwardMap.Comparator && result.inverseMap.Comparator == m.inverseMap.Comparator
+//@   focus loop1:inv-keep:4* : pre:*, loop1:inv:*, lemma:*, Map.Put#*, Iterator.Next#*, Iterator.Key#*, Iterator.Value#*
+//@   focus loop1:inv-keep:5* : pre:*, loop1:inv:*, lemma:*, Map.Put#*, Iterator.Next#*, Iterator.Key#*, Iterator.Value#*
+//@   focus post:entries : loop1:inv:*, Iterator.Next#*, pre:*
+//@   ensures [C14] entries: forall k like argof(m.forwardMap.Comparator, 0) :: (Fwd(result, k) <==> Fwd(m, k) && f(FK(m, FRank(m, k)), FV(m, FRank(m, k)))) && (Fwd(result, k) ==> FwdVal(result, k) == FwdVal(m, k))
+//@   loop 1:
+//@     invariant ItInv(iterator) && iterator.iterator.tree == m.forwardMap && fresh(iterator) && fresh(iterator.iterator) && fresh(newMap) && Inv(newMap) && newMap.forwardMap.Comparator == m.forwardMap.Comparator && newMap.inverseMap.Comparator == m.inverseMap.Comparator
+//@     invariant forall x like m.forwardMap.Root :: fresh(x) ==> x.tr == newMap.forwardMap || x.tr == nil
+//@     invariant forall x like m.inverseMap.Root :: fresh(x) ==> x.tr == newMap.inverseMap || x.tr == nil
+//@     invariant forall k like argof(m.forwardMap.Comparator, 0) :: Fwd(newMap, k) <==> Fwd(m, k) && FRank(m, k) <= Cur(iterator) && f(FK(m, FRank(m, k)), FV(m, FRank(m, k)))
+//@     invariant forall k like argof(m.forwardMap.Comparator, 0) :: Fwd(newMap, k) ==> FwdVal(newMap, k) == FwdVal(m, k)
+//@     decreases m.forwardMap.size - Cur(iterator)
+
+//@ -- Map: the result is a sound bidirectional map over the same comparators with at most as many pairs (a many-to-one
+//@ -- f evicts, as repeated Put does), and the pair mapped from the last entry is present
+//@ func Map.Map
+//@   requires Inv(m) && f != nil
+//@   modifies nothing
+//@   ensures [C14 C16 C17 C18] fresh(result) && Inv(result) && result.forwardMap.Comparator == m.forwardMap.Comparator && result.inverseMap.Comparator == m.inverseMap.Comparator
+//@   focus post:last : loop1:inv:*, Iterator.Next#*, pre:*, Map.Iterator#*
+//@   focus loop1:inv-keep:5* : pre:*, loop1:inv:*, Map.Put#*:1, Iterator.Next#*, Iterator.Key#*, Iterator.Value#*
+//@   ensures [C14] last: m.forwardMap.size > 0 ==> Fwd(result, fst(f(FK(m, m.forwardMap.size - 1), FV(m, m.forwardMap.size - 1))))
+//@   loop 1:
+//@     invariant ItInv(iterator) && iterator.iterator.tree == m.forwardMap && fresh(iterator) && fresh(iterator.iterator) && fresh(newMap) && Inv(newMap) && newMap.forwardMap.Comparator == m.forwardMap.Comparator && newMap.inverseMap.Comparator == m.inverseMap.Comparator
+//@     invariant forall x like m.forwardMap.Root :: fresh(x) ==> x.tr == newMap.forwardMap || x.tr == nil
+//@     invariant forall x like m.inverseMap.Root :: fresh(x) ==> x.tr == newMap.inverseMap || x.tr == nil
+//@     invariant Cur(iterator) < m.forwardMap.size || m.forwardMap.size == 0
+//@     invariant 0 <= Cur(iterator) && Cur(iterator) < m.forwardMap.size ==> Fwd(newMap, fst(f(FK(m, Cur(iterator)), FV(m, Cur(iterator)))))
 //@     decreases m.forwardMap.size - Cur(iterator)
